@@ -690,3 +690,11 @@ package base
 //@   ensures fresh(result) && result != nil && fresh(result.RuleEntities) && result.RuleEntities != nil && emptymap(result.RuleEntities) && len(result.RuleEntities) == 0 && len(result.SortRules) == 0 && fresh(result.SortRulesIndexMap) && result.SortRulesIndexMap != nil && emptymap(result.SortRulesIndexMap) && (isnil(result.SortRules) || fresh(arr(result.SortRules))) && lo(result.SortRules) == 0
 //@   modifies nothing
 //@   nopanic
+
+// ClearRules empties the container IN PLACE (used by the pool's clear; see C07: a published container must not be written)
+//@ func (*KnowledgeContext).ClearRules
+//@   props C07 C16
+//@   requires k != nil
+//@   ensures fresh(k.RuleEntities) && k.RuleEntities != nil && emptymap(k.RuleEntities) && len(k.RuleEntities) == 0 && len(k.SortRules) == 0 && fresh(k.SortRulesIndexMap) && k.SortRulesIndexMap != nil && emptymap(k.SortRulesIndexMap)
+//@   modifies k.RuleEntities, k.SortRules, k.SortRulesIndexMap
+//@   nopanic
